@@ -6,6 +6,7 @@
 mod append;
 mod catalogue;
 mod derived;
+mod hist;
 mod like;
 mod modeled;
 mod probe;
